@@ -122,6 +122,7 @@ func genC19(t *rapid.T) C19Case {
 		l := ragen.Line{K: ragen.KRaw, T: rapid.SampledFrom([]string{
 			"##!> include f0 -- a", "##!> include f0 -- a b c", "##!> include-except f0 f1 -- a b c", "##!> include f0 --", "##!> include nosuch -- x",
 			"##!> include-except f0", "##!> include-except", "##!> include", "##!> define", "##!> define x", "##!> cmdline", "##!> cmdline  ", "##!>", "##!> assemble x y",
+			"##!> cmdline unix\n##!> include f0 -- sh \"\"\n##!<", "##!> cmdline windows\n##!> include-except f0 f1 -- a \"\" b \"\"\n##!<",
 			"##!> define loop {{loop}}\nx{{loop}}y", "##!> define a {{b}}\n##!> define b {{a}}\n{{a}}", "##!> define g a{{g}}\n##!^ {{g}}", "##!> define u {{undefined}}\n{{u}}{{u}}",
 			"##!=<", "##!=> ", "##!+", "##!+ ", "##!^", "##!$", "##!+ isx", "##!<", "##!< ##!<",
 		}).Draw(t, "hd")}
